@@ -46,7 +46,7 @@ var props = map[string]*propCfg{
 		Harness: "hcmdq", Level: "exploration",
 		QuickRuns: 3000, QuickBudgetS: 90, ThoroughRuns: 300000, ThoroughBudgetS: 1200,
 		WatchdogSlackS: 120, DetSeedsQuick: 20, DetSeedsThorough: 200,
-		Rule: "one run = 1-4 commands with 0-5 targets each (overlapping target sets, timeouts 1/5/90/120 s) enqueued by 1-3 concurrent clients on the real CommandQueue+Servent; per (command,target) a behaviour from {reply, error reply, send failure, silence, duplicate, late, foreign id, id of another command, wrong sender} and a delay are drawn; replies are delivered by independent goroutines in schedule-decided order; non-trivial = at least one command with a target; distinct = distinct (scenario, interleaving)",
+		Rule: "one run = 1-4 commands with 0-5 targets each (overlapping target sets, timeouts 1/5/90/120 s) enqueued by 1-3 concurrent clients on the real CommandQueue+Servent; per (command,target) a behaviour from {reply, error reply, send failure, silence, duplicate, late, foreign id, id of another command, wrong sender} and a delay are drawn; replies are delivered by independent goroutines in schedule-decided order; non-trivial = at least one command with a target; distinct = distinct (scenario, interleaving); the send function takes 0/2/40 ms (the message is on its way half way through) and a quarter of the targets answer within 0-2 ms, so answers overtake the return of the send call",
 		Real: []string{"core/controlcommands: CommandQueue (Enqueue, Start loop, commit), Servent (RunCommand, ProcessResponse), MakeSingleTarget, consolidateResponses, MesosCommandMultiResponse"},
 		Stub: []string{"send function (injected SendCommandFunc, the code's own seam)", "executors: replies drawn from the fault stream"},
 		Assumptions: append([]string{
@@ -96,7 +96,7 @@ var props = map[string]*propCfg{
 		Harness: "henv", Level: "exploration",
 		QuickRuns: 4000, QuickBudgetS: 100, ThoroughRuns: 300000, ThoroughBudgetS: 1500,
 		WatchdogSlackS: 240, DetSeedsQuick: 6, DetSeedsThorough: 60,
-		Rule:        "one run = 1-3 concurrent clients issuing 3-12 requests (mostly the next legal event, 25% any event) on one real Environment, injected task-transition outcomes (fail 1/6, delays 0/20 ms/3 s), probe hooks at every moment plus 0-8 drawn hooks (weights -200..200, await same/later/never, critical, failing, delays); oracles: mutual exclusion of transition brackets, reference FSM over the serialisation order, illegal requests execute nothing, only documented states visible, every request returns; non-trivial = more than one request; distinct = distinct (scenario, interleaving)",
+		Rule:        "one run = 1-3 concurrent clients issuing 3-12 requests (mostly the next legal event, 25% any event) on one real Environment, injected task-transition outcomes (fail 1/6, delays 0/20 ms/3 s), probe hooks at every moment plus 0-8 drawn hooks (weights -200..200, await same/later/never, critical, failing, delays); oracles: mutual exclusion of transition brackets, reference FSM over the serialisation order, illegal requests execute nothing, only documented states visible, every request returns; non-trivial = more than one request; distinct = distinct (scenario, interleaving); every call refused without a transition of its own between invocation and return must be illegal in a state the environment was left in meanwhile (requests wait for their turn)",
 		Real:        []string{"core/environment.Environment: FSM callbacks, TryTransition, handleHooks, hook weights/await bookkeeping, run number and timestamp handling", "core/workflow call roles, callable.Call (Start/Await/Cancel, template execution of the call)", "core/integration plugin registry", "looplab/fsm (instrumented copy)", "apricot NewRunNumber over the real Consul client"},
 		Stub:        []string{"task transition body (injected Transition, verif hook)", "integration plugin: probe plugin registered through the public RegisterPlugin API", "Consul: simconsul", "event writers: capturing writers (verif hook)", "callers follow the API rule (GO_ERROR after a failed request, forced ERROR if refused) as core/server.go does"},
 		Assumptions: append([]string{"teardown and the API-level paths (ControlEnvironment, DestroyEnvironment) are exercised by the whole-core harness, not here", "hook tasks are not generated here (calls only)"}, commonAssumptions...),
@@ -132,7 +132,7 @@ var props = map[string]*propCfg{
 		Harness: "hcore", Level: "exploration", OnePerProcess: true,
 		QuickRuns: 3000, QuickBudgetS: 120, ThoroughRuns: 200000, ThoroughBudgetS: 1800,
 		WatchdogSlackS: 120, DetSeedsQuick: 0, DetSeedsThorough: 0,
-		Rule:        "one run = one OS process booting the whole core in a bubble: 1-3 agents, a generated workflow of 0-4 tasks (critical or not, direct/FairMQ, each with a drawn start behaviour ok/late/fails/never and a drawn outcome ok/error-stay/error-state/silent/undeliverable/dies per CONFIGURE/START/STOP/RESET), NewEnvironment then 1-6 ControlEnvironment requests then DestroyEnvironment, drawn delivery latencies; oracle: each request succeeds iff every critical active task acknowledged (reference computed from the drawn outcomes), destination never reported on failure, environment in ERROR after a failure, error returned, every request returns; non-trivial = at least one task; distinct = distinct (scenario, interleaving)",
+		Rule:        "one run = one OS process booting the whole core in a bubble: 1-3 agents, a generated workflow of 0-4 tasks (critical or not, direct/FairMQ, each with a drawn start behaviour ok/late/fails/never and a drawn outcome ok/error-stay/error-state/silent/undeliverable/dies per CONFIGURE/START/STOP/RESET), NewEnvironment then 1-6 ControlEnvironment requests then DestroyEnvironment, drawn delivery latencies; oracle: each request succeeds iff every critical active task acknowledged (reference computed from the drawn outcomes), destination never reported on failure, environment in ERROR after a failure, error returned, every request returns; non-trivial = at least one task; distinct = distinct (scenario, interleaving); in a third of the runs MESSAGE calls take 0/30/80 ms and the simulated master forwards them half way through, so a quick executor answers before the call returns",
 		Real:        []string{"core.RpcServer methods (NewEnvironment, ControlEnvironment, DestroyEnvironment, GetEnvironments, GetTasks, CleanupTasks)", "core/environment: Manager (create, teardown, event loop), Environment FSM, transition_*.go bodies", "core/task: Manager (acquire/configure/transition/release/kill, status handling), scheduler event handlers (offers, updates, messages, failure, reconciliation), roster, matching", "core/controlcommands", "core/workflow (load from a generated local git repository, role tree, template processing)", "core/repos (local repository)", "apricot/local + cfgbackend.ConsulSource + hashicorp consul api", "mesos-go controller, event/call rules, ack handling", "looplab/fsm (instrumented copy)"},
 		Stub:        []string{"Mesos master, agents, executors and tasks: simmesos behind the calls.Caller seam (verif hook SetCallerForVerif)", "Consul: simconsul (http.RoundTripper)", "Kafka: capturing event writers", "gRPC transport: RPC methods are called directly on the RpcServer object (verif hook)", "metrics HTTP server: disabled (port -1)"},
 		Assumptions: append([]string{"simmesos is a model of Mesos written from the scheduler API documentation", "replay of a violation is confirmed in a fresh process; tapes of this harness are not shrunk (one run per process)", "determinism of this harness is checked by replaying every violation in a fresh process (canonical log hash must match), not by the per-seed self-test"}, commonAssumptions...),
@@ -150,7 +150,7 @@ var props = map[string]*propCfg{
 		Harness: "hcore", Level: "exploration", OnePerProcess: true,
 		QuickRuns: 1600, QuickBudgetS: 150, ThoroughRuns: 100000, ThoroughBudgetS: 1800,
 		WatchdogSlackS: 180, DetSeedsQuick: 0, DetSeedsThorough: 0,
-		Rule:        "one run = whole core, 2-3 agents each with its own detector, 1-3 workflows over overlapping hosts, 1-3 concurrent clients each creating/controlling/destroying (force, keep-tasks, allow-running drawn) 1-3 environments and calling CleanupTasks, an observer polling GetEnvironments/GetTasks/GetTask; oracles: detectors of listed environments pairwise disjoint at every observation, no KILL for a task owned by an environment nobody asked to destroy, every request returns; non-trivial = the oracle's situation really occurred; distinct = distinct (scenario, interleaving)",
+		Rule:        "one run = whole core, 2-3 agents each with its own detector, 1-3 workflows over overlapping hosts, 1-3 concurrent clients each creating/controlling/destroying (force, keep-tasks, allow-running drawn) 1-3 environments and calling CleanupTasks, an observer polling GetEnvironments/GetTasks/GetTask; oracles: detectors of listed environments pairwise disjoint at every observation, no KILL for a task owned by an environment nobody asked to destroy, every request returns; non-trivial = the oracle's situation really occurred; distinct = distinct (scenario, interleaving); in one run in six the core runs with reuseUnlockedTasks",
 		Real:        []string{"core.RpcServer methods (NewEnvironment, ControlEnvironment, DestroyEnvironment, GetEnvironments, GetTasks, CleanupTasks)", "core/environment: Manager (create, teardown, event loop), Environment FSM, transition_*.go bodies", "core/task: Manager (acquire/configure/transition/release/kill, status handling), scheduler event handlers (offers, updates, messages, failure, reconciliation), roster, matching", "core/controlcommands", "core/workflow (load from a generated local git repository, role tree, template processing)", "core/repos (local repository)", "apricot/local + cfgbackend.ConsulSource + hashicorp consul api", "mesos-go controller, event/call rules, ack handling", "looplab/fsm (instrumented copy)"},
 		Stub:        []string{"Mesos master, agents, executors and tasks: simmesos behind the calls.Caller seam (verif hook SetCallerForVerif)", "Consul: simconsul (http.RoundTripper)", "Kafka: capturing event writers", "gRPC transport: RPC methods are called directly on the RpcServer object (verif hook)", "metrics HTTP server: disabled (port -1)"},
 		Assumptions: append([]string{"simmesos is a model of Mesos written from the scheduler API documentation", "violations are confirmed by replaying the recorded tape in a fresh process (canonical log hash must match); tapes of this harness are not shrunk"}, commonAssumptions...),
@@ -208,7 +208,7 @@ var props = map[string]*propCfg{
 		Harness: "hload", Level: "exploration",
 		QuickRuns: 2400, QuickBudgetS: 100, ThoroughRuns: 300000, ThoroughBudgetS: 1500,
 		WatchdogSlackS: 180, DetSeedsQuick: 10, DetSeedsThorough: 100,
-		Rule:        "one run = a generated workflow template (1-3 top roles, depth <= 3, aggregators, tasks, calls, iterators over two list variables incl. an empty one, enabled = false / flag variable / expression over an iteration variable, variables referring to a root default, optionally one broken template expression) processed by the real ProcessTemplates once sequentially and 1-4 more times under drawn settings of the three concurrency switches, every load under a seeded schedule of the template goroutines (R4 race points on captured variables); oracles: loaded tree = independent reference expansion (paths in order), variables equal across loads, a reached template error fails every load; non-trivial = more than one role expected; distinct = distinct (scenario, interleaving)",
+		Rule:        "one run = a generated workflow template (1-3 top roles, depth <= 3, aggregators, tasks, calls, iterators over two list variables incl. an empty one, enabled = false / flag variable / expression over an iteration variable, variables referring to a root default, optionally one broken template expression) processed by the real ProcessTemplates once sequentially and 1-4 more times under drawn settings of the three concurrency switches, every load under a seeded schedule of the template goroutines (R4 race points on captured variables); oracles: loaded tree = independent reference expansion (paths in order), variables equal across loads, a reached template error fails every load; non-trivial = more than one role expected; distinct = distinct (scenario, interleaving); roles below iterators may declare an inbound channel whose global alias contains an iteration variable, and the inbound channels (own and inherited) of every role are compared with the reference",
 		Real:        []string{"core/workflow: aggregatorRole/iteratorRole/taskRole/callRole ProcessTemplates, expandTemplate, copies, pruning", "configuration/template (fields, stages, expression evaluation)", "common/gera maps"},
 		Stub:        []string{"repository: fake IRepo", "configuration service: apricot local over simconsul (empty)", "no sub-workflow includes"},
 		Assumptions: append([]string{"the reference expansion is written from the property statement for the generated template language subset (no includes)"}, commonAssumptions...),
